@@ -60,4 +60,14 @@ def Gate.add (g : Gate) (v : VShred) : Gate × GateVerdict :=
         if (idx < l && !isLast) || (idx == l && isLast) then (g', .pass)
         else ({ g' with misbehaved := true }, .equivocation)
 
+/-- `Alpenglow::handle_disseminator_shred` of a node that is not the slot's leader, as far as the blockstore's
+    gate is concerned (`consensus.rs` l.384-424): validate with the blockstore's cached commitment for the slice;
+    an accepted shred goes to `add_shred_from_dissemination`; (after the D16 `fix:`) a validly signed
+    *conflicting* commitment flags the leader; a bad signature is dropped silently. -/
+def Gate.nodeHandle (env : Env) (g : Gate) (s : Shred) (leaderPk : Nat) : Gate :=
+  match validate env s (g.cached s.header.sliceIdx) leaderPk with
+  | .ok v => (g.add v).1
+  | .error .equivocation => { g with misbehaved := true }
+  | .error .invalidSignature => g
+
 end AgModel.Shred
